@@ -241,6 +241,12 @@ func (h *connHandshaker) Start(p Pipe) {
 	// If the following type assertion fails, then its a software bug.
 	conn := p.(connHandshakerPipe)
 	h.Lock()
+	if h.closed {
+		// Close has already swept workq; nothing else would close this one.
+		h.Unlock()
+		_ = conn.Close()
+		return
+	}
 	h.workq[conn] = true
 	h.Unlock()
 	go h.worker(conn)
